@@ -250,7 +250,7 @@ fn run_batch(dir: &Path, t: Target, cases: &[(usize, &RCase)]) -> anyhow::Result
         let sr = ensure_sysroot(t)?;
         cmd.args(["+nightly", "--target", t.name(), "-C", "panic=abort", "-L"]).arg(sr);
     }
-    cmd.args(["--edition=2021", "--crate-type", "rlib", "--crate-name", "batch", "--emit=metadata", "--error-format=json", "--cap-lints", "allow", "-A", "warnings", "--out-dir"])
+    cmd.args(["--edition=2021", "--crate-type", "rlib", "--crate-name", "batch", "--emit=metadata", "--error-format=json", "-A", "warnings", "--out-dir"])
         .arg(".")
         .arg("lib.rs")
         .current_dir(dir);
